@@ -744,7 +744,10 @@ class TFLiteSupportedOperators:
                 valid = True
             else:
                 # Valid if OFM is 2/4/8x IFM (-1 for align corners)
-                if align_corners:
+                if align_corners and (ifm_shape_h == 1 or ifm_shape_w == 1):
+                    # the scaling of a dimension of size 1 is undefined (0 / 0): not supported
+                    h_upscale_factor = w_upscale_factor = 0
+                elif align_corners:
                     h_upscale_factor = (ofm_shape_h - 1) / (ifm_shape_h - 1)
                     w_upscale_factor = (ofm_shape_w - 1) / (ifm_shape_w - 1)
                 else:
